@@ -118,6 +118,7 @@ const (
 	sCallStmt
 	sError
 	sRtErr
+	sStorm // for _ = 1, n do pcall(error, "m") end: many caught errors, no event
 )
 
 type stmt struct {
@@ -313,6 +314,8 @@ func (r *renderer) stmt(s *stmt) {
 		} else {
 			s.line = r.ln(fmt.Sprintf("error(%s, %d)", renderExpr(s.exps[0]), s.level))
 		}
+	case sStorm:
+		s.line = r.ln(fmt.Sprintf(`for _ = 1, %d do pcall(error, "storm") pcall(string.rep) end`, s.n))
 	case sRtErr:
 		switch s.n {
 		case 0:
